@@ -129,6 +129,10 @@ func (Keeper).ApplyVestingSchedule
     ensures flags: !(result.1 && result.2) && (result.3 != nil ==> result.0 == nil && !result.1)
     // ---- ... and the account IS stored: afterwards the account store holds, under `funded`, exactly the returned account
     // (every field, including the delegation tracking), whose schedules are the old ones plus the grant
+    // (agent W) a merge rewrites the pre-existing account object obtained from GetAccount (addGrant: *va, *va.BaseVestingAccount).
+    // Without this clause callers kept the object's OLD heap value next to `merged_total` (OriginalVesting == old + coins), i.e.
+    // coins == 0: every caller path "merged a non-empty grant" was vacuous.
+    modifies heap(CVA), heap(BVA)
     modifies acct_iscva, acct_cva, acct_bva
     ensures stored: result.3 == nil ==> acct_iscva == upd(old(acct_iscva), funded, true) && acct_cva == upd(old(acct_cva), funded, *acc)
             && acct_bva == upd(old(acct_bva), funded, *acc.BaseVestingAccount)
@@ -138,6 +142,11 @@ func (Keeper).ApplyVestingSchedule
             == cadd(old(StoredVest(acct_iscva, acct_cva, funded, u)), Ended(s, vestingPeriods, len(vestingPeriods), u))
     ensures stored_total: result.3 == nil ==> acct_bva[funded].OriginalVesting == cadd(ite(old(acct_iscva[funded]), old(acct_bva[funded].OriginalVesting), coins_zero()), coins)
     ensures failed: result.3 != nil ==> acct_cva == old(acct_cva) && acct_bva == old(acct_bva) && acct_iscva == old(acct_iscva)
+    // (agent W, C09 message layer) a grant is merged exactly when the funded account already is a clawback vesting account,
+    // and then only with `merge` set and for the account's recorded funder
+    ensures c09m_kind: result.3 == nil ==> result.2 == old(acct_iscva[funded])
+    ensures c09m_base: result.3 == nil ==> acc != nil && acc.BaseVestingAccount != nil && acc.BaseAccount != nil
+    ensures c09m_merge_rule: result.3 == nil && old(acct_iscva[funded]) ==> merge && old(acct_cva[funded].FunderAddress) == addr_string(funder)
     // the switch's default branch is dead code: the four cases are exhaustive
     unreachable return: return nil, false, true, errorsmod.Wrapf(types.ErrApplyShedule, "failed to initiate vesting for account %s", funded)
     allow frame
